@@ -1,13 +1,15 @@
 #!/bin/bash
-# usage: benign_run.sh <name> [check ids...]   (applies /verif/benign/<name>/patch.diff to /repo, runs the checks, restores /repo)
+# usage: benign_run.sh <name> [check ids...]   (applies /verif/benign/<name>/patch.diff to a scratch worktree of /repo HEAD and runs the checks there)
 NAME=$1; shift
 IDS=${*:-"C01 C02 C03 C04 C05 C06 C07 C08 C09 C10 C11 C12 C13 C14 C15 C16 C17 C18 C19"}
-git -C /repo apply /verif/benign/$NAME/patch.diff || exit 1
+S=$(mktemp -d /tmp/benrun.XXXXXX); rmdir "$S"
+git -C /repo worktree add -q --detach "$S" HEAD
+( cd "$S" && git apply /verif/benign/$NAME/patch.diff ) || { git -C /repo worktree remove --force "$S"; exit 1; }
 mkdir -p /tmp/benverif.$$; cp /verif/known_findings.json /tmp/benverif.$$/
 for id in $IDS; do
-  R=$(/verif/bin/verifcheck check $id --verif /tmp/benverif.$$ 2>&1 | grep -v '^KNOWN')
+  R=$(/verif/bin/verifcheck check $id --repo "$S" --verif /tmp/benverif.$$ 2>&1 | grep -v '^KNOWN')
   if echo "$R" | grep -q '^VIOLATION\|^CHECK-BROKEN'; then echo "== $id FALSE ALARM:"; echo "$R" | grep -v '^VIOLATION\|witness' | head -${LINES_MAX:-4} | cut -c1-${COLS:-260}; fi
 done
-git -C /repo checkout -- .
+git -C /repo worktree remove --force "$S"
 rm -rf /tmp/benverif.$$
 echo "done $NAME"
